@@ -107,58 +107,53 @@ def tassign(t, v, cond, nxt, cur, sigs):
 
 
 def driven_bits(t, sigs, out):
-    """Static over-approximation, as the language defines drivers: a dynamic part-select drives its
-    whole operand."""
+    """The bits a target can write, as the netlist (and, since fix 0b3095d, the simulator) defines drivers: a dynamic
+    part-select drives the bits that some value of its offset can reach, nothing else."""
+    w, _ = tshape(t, sigs)
+    _drive(t, mask(w), sigs, out)
+
+
+def _drive(t, m, sigs, out):
+    """m: the bits of t (as a mask over t's own width) that are written."""
     k = t[0]
+    w, _ = tshape(t, sigs)
+    m &= mask(w)
+    if not m:
+        return
     if k == "sig":
-        out[t[1]] = out.get(t[1], 0) | mask(t[2])
+        out[t[1]] = out.get(t[1], 0) | m
     elif k == "slice":
-        sub = {}
-        driven_bits(t[1], sigs, sub)
         wi, _ = tshape(t[1], sigs)
         rng = range(wi)[t[2]:t[3]]
-        if t[1][0] == "sig":
-            if len(rng):
-                out[t[1][1]] = out.get(t[1][1], 0) | (mask(len(rng)) << rng.start)
-        else:
-            _restrict(t[1], rng.start, len(rng), sigs, out)
-    elif k in ("cat", "array"):
+        if len(rng):
+            _drive(t[1], (m & mask(len(rng))) << rng.start, sigs, out)
+    elif k == "cat":
         for p in t[1]:
-            driven_bits(p, sigs, out)
+            wp = tshape(p, sigs)[0]
+            _drive(p, m & mask(wp), sigs, out)
+            m >>= wp
+    elif k in ("bit_select", "word_select"):
+        wo, _ = tshape(t[1], sigs)
+        offw, _ = tshape(t[2], sigs)
+        width = t[3]
+        stride = width if k == "word_select" else 1
+        pm = 0
+        for off in range(1 << offw):
+            if off * stride >= wo:
+                break
+            pm |= (m & mask(width)) << (off * stride)
+        _drive(t[1], pm, sigs, out)
+    elif k == "array":
+        for p in t[1]:
+            _drive(p, m, sigs, out)
     else:
-        driven_bits(t[1], sigs, out)
+        _drive(t[1], m, sigs, out)
 
 
 def _restrict(t, start, length, sigs, out):
-    """Bits of the signals under t that the window [start, start+length) of t statically covers."""
-    if length <= 0:
-        return
-    k = t[0]
-    w, _ = tshape(t, sigs)
-    stop = min(start + length, w)
-    if start >= stop:
-        return
-    if k == "sig":
-        out[t[1]] = out.get(t[1], 0) | (mask(stop - start) << start)
-    elif k == "slice":
-        wi, _ = tshape(t[1], sigs)
-        rng = range(wi)[t[2]:t[3]]
-        _restrict(t[1], rng.start + start, stop - start, sigs, out)
-    elif k == "cat":
-        off = 0
-        for p in t[1]:
-            wp = tshape(p, sigs)[0]
-            lo, hi = max(start, off), min(stop, off + wp)
-            if lo < hi:
-                _restrict(p, lo - off, hi - lo, sigs, out)
-            off += wp
-    elif k in ("bit_select", "word_select"):
-        driven_bits(t[1], sigs, out)
-    elif k == "array":
-        for p in t[1]:
-            _restrict(p, start, stop - start, sigs, out)
-    else:
-        _restrict(t[1], start, stop - start, sigs, out)
+    """Bits of the signals under t that the window [start, start+length) of t covers."""
+    if length > 0:
+        _drive(t, mask(length) << start, sigs, out)
 
 
 class StmtOracle:
